@@ -172,6 +172,24 @@ def shard_js(shard, nshards, tier, seed, scratch):
                     seen.add(('js', 'query-result'))
                     failures.append({'leg': 'js', 'clause': 'js-query-result', 'detail': {'text': t, 'pattern': p, 'got': r[0], 'expected': exp}, 'case': {'kind': 'jspair', 'text': t, 'pattern': p}})
         stats.bump('js-batches', len(jobs))
+        # all (text, pattern) pairs of length <= 2 in ONE query per engine, patterns outermost: any per-query memo keyed by a
+        # combination of pattern and text meets every pair of pairs
+        small = strings(SIGMA, 2)
+        rows = [[t, p] for p in small for t in small]
+        for lang in ('js', 'py'):
+            if lang == 'js':
+                res = drv.query_table('select like(a1, a2)', rows)
+            else:
+                res = engine.run_table('select like(a1, a2)', [list(r) for r in rows], None, None, None)
+            if res['error'] is not None:
+                raise Violation(lang + '-error', {'text': rows[0][0], 'pattern': 'all pairs in one query', 'error': res['error']})
+            for (t, p), r in zip(rows, res['out']):
+                exp = refmodel.ref_like(t, p)
+                stats.evaluations += 1
+                if r[0] is not exp and (lang, 'one-query') not in seen:
+                    seen.add((lang, 'one-query'))
+                    failures.append({'leg': 'js', 'clause': lang + '-query-result-all-pairs-in-one-query', 'detail': {'text': t, 'pattern': p, 'got': r[0], 'expected': exp, 'rows_in_query': len(rows)}, 'case': {'kind': 'allpairs', 'lang': lang}})
+        stats.bump('all-pairs-in-one-query', len(rows))
         # patterns / texts that are member names of the host languages' built-in objects (a cache keyed by pattern in a plain object / dict)
         rows = [[t, p] for t in IDENT_WORDS + ['xxprotoxx', 'constructors', ''] for p in IDENT_WORDS + ['const%', '%String', '__proto%', '%']]
         res = drv.query_table('select like(a1, a2)', rows)
@@ -218,6 +236,24 @@ def shard_js(shard, nshards, tier, seed, scratch):
 
 
 def replay(case, clause=None):
+    if case.get('kind') == 'allpairs':
+        small = strings(SIGMA, 2)
+        rows = [[t, p] for p in small for t in small]
+        if case['lang'] == 'js':
+            from .. import jsdriver
+            drv = jsdriver.Driver()
+            try:
+                res = drv.query_table('select like(a1, a2)', rows)
+            finally:
+                drv.close()
+        else:
+            res = engine.run_table('select like(a1, a2)', rows, None, None, None)
+        if res['error'] is not None:
+            raise Violation('all-pairs-error', {'error': res['error']})
+        for (t, p), r in zip(rows, res['out']):
+            if r[0] is not refmodel.ref_like(t, p):
+                raise Violation('query-result-all-pairs-in-one-query', {'text': t, 'pattern': p, 'got': r[0]})
+        return
     if case.get('kind') == 'jspair':
         from .. import jsdriver
         drv = jsdriver.Driver()
